@@ -246,10 +246,19 @@ impl Drop for BlsSecretKey {
 
 /// A key material generator compatible with KeyGen from the
 /// bls-signatures RFC draft 4 (incompatible with earlier)
-#[derive(Debug, Clone)]
+#[derive(Clone)]
 pub struct BlsKeyGen<'g> {
     salt: Option<GenericArray<u8, U32>>,
     ikm: &'g [u8],
+}
+
+impl Debug for BlsKeyGen<'_> {
+    fn fmt(&self, f: &mut Formatter<'_>) -> fmt::Result {
+        f.debug_struct("BlsKeyGen")
+            .field("salt", &self.salt)
+            .field("ikm", &"<secret>")
+            .finish()
+    }
 }
 
 impl<'g> BlsKeyGen<'g> {
